@@ -26,6 +26,7 @@ import (
 	"strconv"
 	"strings"
 	"sync"
+	"sync/atomic"
 	"time"
 
 	"go.opentelemetry.io/otel/sdk/metric/metricdata"
@@ -325,7 +326,7 @@ type Ev struct {
 	Res     string   `json:"res,omitempty"`
 	Out     string   `json:"out,omitempty"`
 	W       int      `json:"w,omitempty"`
-	Value   int64    `json:"value,omitempty"`
+	Value   int64    `json:"value"`
 	Cancel  bool     `json:"cancel"`
 	Heavy   bool     `json:"heavy,omitempty"`
 	Blocked []string `json:"blocked,omitempty"`
@@ -381,16 +382,29 @@ func stressRound(rng *rand.Rand, round int, emit func(Ev)) bool {
 	P := 2 + rng.Intn(3)
 	K := 1 + rng.Intn(3)
 	heavy := round%8 == 0 // many short-lived blocked producers: exercises wake-ups racing with cancellation
-	if heavy {
+	flow := round%16 == 4 // many requests of different sizes flowing through several consumers: exercises the size accounting
+	if flow {
+		heavy = true
+		cfg = Cfg{Sizer: []string{"items", "bytes"}[rng.Intn(2)], Cap: int64(24 + rng.Intn(48)), Block: true, WFR: false, Consumers: 4 + rng.Intn(5)}
+		P, K = 8, 60
+	} else if heavy {
 		cfg.Block, cfg.Cap, cfg.Consumers, cfg.Persistent = true, int64(1+rng.Intn(2)), 2, false
 		if cfg.Sizer == "requests" {
 			cfg.Cap = 2
 		}
 		cfg.WFR = rng.Intn(4) == 0
-		P, K = 48+rng.Intn(16), 400
+		P, K = 48+rng.Intn(16), 150
 	}
 	var mu sync.Mutex
-	log := func(e Ev) { mu.Lock(); emit(e); mu.Unlock() }
+	compact := false // heavy rounds: only what the search-free monitor (SQHeavy.tla) needs
+	log := func(e Ev) {
+		if compact && (e.Ev == "offer_start" || e.Ev == "push_end" || (e.Ev == "offer_end" && e.Res == "ctx")) {
+			return
+		}
+		mu.Lock()
+		emit(e)
+		mu.Unlock()
+	}
 	outcomes := map[string]string{}
 	delays := map[string]time.Duration{}
 	type offer struct {
@@ -419,7 +433,11 @@ func stressRound(rng *rand.Rand, round int, emit func(Ev)) bool {
 			if rng.Intn(3) == 0 {
 				o.cancel = time.Duration(rng.Intn(400)) * time.Microsecond
 			}
-			if heavy {
+			if flow {
+				o.size, size = 1+rng.Int63n(16), 0
+				size = o.size
+				o.cancel = 0
+			} else if heavy {
 				o.cancel = time.Duration(1+rng.Intn(60)) * time.Microsecond
 				if p%6 == 0 {
 					o.cancel = 0 // canaries: blocked producers without a deadline hang forever if a wake-up is lost
@@ -436,11 +454,16 @@ func stressRound(rng *rand.Rand, round int, emit func(Ev)) bool {
 			if heavy {
 				delays[name] = time.Duration(rng.Intn(30)) * time.Microsecond
 			}
+			if flow {
+				delays[name] = 0
+			}
 		}
 	}
 	var workerSeq int
 	var wmu sync.Mutex
+	var acceptedN, finishedN atomic.Int64
 	next := func(_ context.Context, r request.Request) error {
+		defer finishedN.Add(1)
 		n := r.(*vreq).Name
 		wmu.Lock()
 		workerSeq++
@@ -461,6 +484,10 @@ func stressRound(rng *rand.Rand, round int, emit func(Ev)) bool {
 		return true
 	}
 	c := cfg
+	compact = heavy
+	if heavy {
+		names, sizes = nil, nil
+	}
 	log(Ev{Ev: "reset", Round: round, Cfg: &c, Reqs: names, Sizes: sizes, Heavy: heavy})
 	if err := e.qb.Start(context.Background(), e.host); err != nil {
 		log(Ev{Ev: "note", Res: err.Error()})
@@ -479,7 +506,10 @@ func stressRound(rng *rand.Rand, round int, emit func(Ev)) bool {
 				}
 				log(Ev{Ev: "offer_start", P: p + 1, Req: o.req, Size: o.size, Cancel: o.cancel > 0})
 				err := e.qb.Send(ctx, mkReq(o.req, o.size, cfg.Sizer))
-				log(Ev{Ev: "offer_end", P: p + 1, Req: o.req, Res: classify(err)})
+				if err == nil && o.size > 0 && !cfg.WFR {
+					acceptedN.Add(1)
+				}
+				log(Ev{Ev: "offer_end", P: p + 1, Req: o.req, Res: classify(err), Size: o.size})
 				cancel()
 			}
 		}(p)
@@ -499,12 +529,33 @@ func stressRound(rng *rand.Rand, round int, emit func(Ev)) bool {
 			if v, ok := e.gauge("otelcol_exporter_queue_size"); ok {
 				log(Ev{Ev: "size", Value: v + 1}) // +1: keep 0 visible through omitempty
 			}
+			if compact {
+				time.Sleep(600 * time.Microsecond)
+			}
 			time.Sleep(150 * time.Microsecond)
 		}
 	}()
 	finished := make(chan struct{})
 	go func() {
 		wg.Wait()
+		// "zero once every accepted request has finished": without wait_for_result wait for the exports of everything that
+		// was accepted, give the completion bookkeeping a moment, and read the reported size BEFORE shutdown
+		// (the gauges are unregistered by it)
+		if !cfg.WFR {
+			for t := 0; t < 10000 && finishedN.Load() < acceptedN.Load(); t++ {
+				time.Sleep(time.Millisecond)
+			}
+			if finishedN.Load() >= acceptedN.Load() {
+				var v int64
+				for t := 0; t < 400; t++ {
+					if v, _ = e.gauge("otelcol_exporter_queue_size"); v == 0 {
+						break
+					}
+					time.Sleep(5 * time.Millisecond)
+				}
+				log(Ev{Ev: "final_size", Value: v + 1})
+			}
+		}
 		log(Ev{Ev: "shutdown_start"})
 		_ = e.qb.Shutdown(context.Background())
 		log(Ev{Ev: "shutdown_end"})
@@ -525,9 +576,6 @@ func stressRound(rng *rand.Rand, round int, emit func(Ev)) bool {
 	close(stopSample)
 	if ok {
 		swg.Wait()
-		if v, okg := e.gauge("otelcol_exporter_queue_size"); okg {
-			log(Ev{Ev: "final_size", Value: v + 1})
-		}
 		_ = e.tel.Shutdown(context.Background())
 	}
 	return ok
